@@ -46,7 +46,7 @@ META = {
     "rule": "case = (route, item, value); non-trivial = distinct (route, item type, value class, item-kind) tuples with "
             "a decided expectation",
     "assumptions": ["glibc strtol/strtod semantics in the C locale", "fork() isolates attempts (callbacks may abort)"],
-    "ready": False,
+    "ready": True,
 }
 
 INT_MIN, INT_MAX = -2**31, 2**31 - 1
@@ -321,11 +321,13 @@ def mangle_name(rng, name, known):
 
 # ------------------------------------------------------------------------------------------------ cases
 class Case:
-    __slots__ = ("route", "typ", "sets", "reads", "expect", "klass", "item", "raw")
+    __slots__ = ("route", "typ", "sets", "reads", "expect", "klass", "item", "raw", "name", "value")
 
     def __init__(self):
         self.raw = None
         self.reads = []
+        self.name = None
+        self.value = None
 
     def line(self):
         f = [self.route, self.typ]
@@ -338,7 +340,9 @@ class Case:
 
     def witness(self):
         return {"route": self.route, "type": self.typ, "sets": [[n, v] for n, v in self.sets],
-                "reads": [[t, n] for t, n in self.reads], "class": self.klass, "item": self.item, "line": self.line()}
+                "reads": [[t, n] for t, n in self.reads], "class": self.klass, "item": self.item, "line": self.line(),
+                "name": self.name, "value": self.value, "kind": self.expect.get("kind"),
+                "pairs": self.expect.get("pairs")}
 
 
 def value_class(typ, s, ref):
@@ -379,6 +383,7 @@ def make_set_case(route, name, real, typ, value, items, own, enums, initial):
     c.item = real
     c.route = route
     c.typ = typ
+    c.name, c.value = name, value
     ref = ref_parse(typ, value)
     if route in ("parse", "engine", "argv"):
         c.sets = [(name + ":" + value, "")]
@@ -667,13 +672,44 @@ def run(ctx):
     for real in names:
         gen_for(real, per_own if real in OWN else per_item)
 
+    # directed: setting an item to the value it already holds is a set like any other (callback runs, value stored)
+    for real in sorted(OWN):
+        t, d, k, val, al, cb = OWN[real]
+        for route in ("typed", "str", "parse") + (("ctyped",) if t != "boolean" else ()):
+            vtxt = {"int": str(d), "double": repr(d), "boolean": "yes" if d else "no", "string": d}[t]
+            if route == "parse" and (vtxt == "" and False):
+                continue
+            c = make_set_case("str" if route in ("typed", "ctyped") else route, real, real, t, vtxt, items, OWN, enums, initial)
+            if route in ("typed", "ctyped"):
+                c.route = route
+                c.sets = [(real, typed_text(t, d))]
+                c.klass = (route,) + c.klass[1:]
+            c.klass = c.klass[:2] + ("same-as-current",) + c.klass[3:]
+            cases.append(c)
+
     # unknown names on every route
     known = set(items)
     for it in items.values():
         known.update(it["aliases"])
-    for _ in range(n_unknown):
-        base = rng.choice(names)
-        bad = mangle_name(rng, base, known)
+    alias_of = {a: n for n, it in items.items() for a in it["aliases"]}
+    all_aliases = sorted(alias_of)
+    directed_bad = []
+    for nm in sorted(known):
+        # the snake_case spelling of a kebab-case name (or alias) is not a name (the library only *suggests* it)
+        if "-" in nm and nm.replace("-", "_") not in known:
+            directed_bad.append((nm.replace("-", "_"), alias_of.get(nm, nm)))
+    rng.shuffle(directed_bad)
+    directed_bad = directed_bad[:ctx.size(quick=60, thorough=1000)]
+    for i in range(n_unknown + len(directed_bad)):
+        if i >= n_unknown:
+            bad, base = directed_bad[i - n_unknown]
+        elif rng.random() < 0.3:       # mangle an alias (deprecated spelling) instead of a current name
+            al = rng.choice(all_aliases)
+            base = alias_of[al]
+            bad = mangle_name(rng, al, known)
+        else:
+            base = rng.choice(names)
+            bad = mangle_name(rng, base, known)
         typ = items[base]["type"]
         route = rng.choice(["parse", "engine", "str", "typed", "ctyped", "get", "argv"])
         if route == "ctyped" and typ == "boolean":
@@ -873,15 +909,43 @@ def ctx_sample_wanted(ctx):
 
 
 def replay(ctx, witness):
+    """Re-run the witness attempt on the current tree and judge it again with a freshly computed expectation."""
     flv = witness.get("flavour", "hooks")
     binary = build.harness("cfg.cpp", flv)
-    if witness.get("argv") or witness.get("route") == "argv":
-        args = witness.get("argv") or [witness["sets"][0][0]]
-        reads = ",".join("%s:%s" % (t, hexs(n)) for t, n in witness.get("reads", []))
-        r = proc.run([binary, "argv", reads, "--"] + ["--cfg=" + a for a in args] + ["--log=root.thres:critical"], timeout=120)
+    items = registry(build.harness("cfg.cpp", "hooks"))
+    enums = discover_enums(ctx, build.harness("cfg.cpp", "hooks"), items)
+    kind = witness.get("kind")
+    c = Case()
+    c.route, c.typ, c.item = witness["route"], witness["type"], witness["item"]
+    c.sets = [tuple(x) for x in witness["sets"]]
+    c.reads = [tuple(x) for x in witness["reads"]]
+    c.klass = tuple(witness["class"])
+    c.raw = witness.get("argv") or (c.sets[0][0] if c.sets else None)
+    if kind == "unknown":
+        c.expect = {"kind": "unknown"}
+    elif kind == "multi":
+        c.expect = {"kind": "multi", "pairs": [tuple(x) for x in witness["pairs"]]}
+    elif witness.get("argv"):
+        last = witness["argv"][-1].split(":", 1)[1]
+        c.expect = {"kind": "store", "value": ref_parse(c.typ, last)[1], "cb": False}
     else:
-        r = proc.run([binary, "run", "--log=root.thres:critical"], stdin=witness["line"] + "\n", timeout=120)
-    print(r.out)
-    print(r.err[-2000:])
-    ctx.evaluation()
-    ctx.inconclusive("replay prints the harness answer for the witness line; judge by eye against witness['expect']")
+        # initial value of the item, for the 'unchanged after a rejected set' clause
+        g = Case()
+        g.route, g.typ, g.sets, g.reads, g.item = "get", c.typ, [(c.item, "")], [(c.typ, c.item)], c.item
+        r0 = run_batch(build.harness("cfg.cpp", "hooks"), [g], 120)
+        pr0 = parse_out(r0.out, 1)[0]
+        txt = pr0[1][1][c.item]
+        t = c.typ
+        init = {c.item: (int(txt) if t == "int" else float.fromhex(txt) if t == "double" and "x" in txt else
+                         float(txt) if t == "double" else (txt == "1") if t == "boolean" else unhex(txt))}
+        c.expect = expectation(c.item, c.typ, ref_parse(c.typ, witness["value"]), OWN, enums, init)
+    if c.route == "argv":
+        pr = decide_argv(run_argv(binary, c))
+    else:
+        r = run_batch(binary, [c], 120)
+        pr = parse_out(r.out, 1)[0]
+    if pr is None:
+        ctx.inconclusive("replay: no answer")
+        return
+    print("answer:", pr)
+    evaluate(ctx, c, pr, flv)
